@@ -59,6 +59,9 @@ func (l *loadIterator) NextBatch(maxSize int) (batch IteratorBatch, err error) {
 		return
 	}
 	l.isExhausted = true
+	// the announced heads continue from the previous batch, so that they always describe
+	// everything that was sent (or skipped as already known) so far, not only this batch
+	batch.Heads = append(batch.Heads, l.lastHeads...)
 	err = l.storage.GetAfterOrder(context.Background(), l.orderId, func(ctx context.Context, c StorageChange) (shouldContinue bool, err error) {
 		l.orderId = c.OrderId
 		rawEntry, ok := l.cache[c.Id]
@@ -99,7 +102,7 @@ func (l *loadIterator) NextBatch(maxSize int) (batch IteratorBatch, err error) {
 		err = fmt.Errorf("load iterator: failed to get changes after order: %w", err)
 		return
 	}
-	l.lastHeads = batch.Heads
+	l.lastHeads = append(l.lastHeads[:0:0], batch.Heads...)
 	return
 }
 
